@@ -365,6 +365,12 @@ def body_hocur(case):
         # the request "ranks >= true ranks" of the second call is the caller's list, whatever the first call adapted
         x1 = np.repeat(x[:, :1], case['m'], axis=1)
         tdt.hocur(x1, phi, ranks, repeats=case['repeats'], multiplier=case['multiplier'], progress=False)
+    if case['seed'] % 3 == 0 and case['m'] >= 2:
+        # the same basis-function objects have been used before on another data matrix (snapshots in reverse order, rescaled)
+        try:
+            tdt.hocur(np.array(np.asarray(x)[:, ::-1], dtype=float) * 0.75, phi, case['m'] + case['ranks_extra'], repeats=1, multiplier=case['multiplier'], progress=False)
+        except Exception:     # noqa -- history only, its data are not guarded
+            pass
     t = tdt.hocur(x, phi, ranks, repeats=case['repeats'], multiplier=case['multiplier'], progress=False)
     require_consistent(t, 'consistent')
     n = [len(f) for f in phi]
@@ -373,6 +379,8 @@ def body_hocur(case):
     lab = general_labels(case)
     if case['ranks_list'] and case.get('reuse_ranks') and case['m'] >= 2:
         lab.add('ranks_list_reused')
+    if case['seed'] % 3 == 0 and case['m'] >= 2:
+        lab.add('basis_used_before')
     lab.add('repeats%d' % case['repeats'])
     return lab
 
